@@ -201,6 +201,10 @@ func (e *Exec) opMine(kv map[string]string) string {
 	}
 	curTerm, curBlockNum := 1+wantH/3, 1+wantH%3
 	w.Cons.storage, _ = json.Marshal(map[string]interface{}{"curTerm": curTerm, "curBlockNum": curBlockNum})
+	if kv["pow"] == "1" {
+		w.Cons.restamp = true
+		e.out.Count("mine:restamped-by-consensus")
+	}
 	w.Net.drain()
 	nconf := len(w.Cons.confirmed)
 	merr := w.Miner.VerifMining(w.P.Ctx)
